@@ -240,6 +240,11 @@ def finish(prop, tier, t0, obs, units_meta, trusted_base, assumptions, level_if_
                    "failed_checks": o.detail, "verifier_output_tail": o.output[-6000:],
                    "counterexample": o.playback, "replayed_on_real_code": None}
             suffix = " no-failing-input-found"
+            rp = (o.playback or {}).get("replay") if isinstance(o.playback, dict) else None
+            if rp:
+                rep["replayed_on_real_code"] = rp
+                if rp.get("input_found"):
+                    suffix = ""
             if replay_builder is not None:
                 try:
                     r = replay_builder(o)
